@@ -3,6 +3,7 @@ import Driver.GTreeIO
 import GeosModel.Base.F64
 import GeosModel.Model.Relate.Ref
 import GeosModel.Model.Relate.Pred
+import GeosModel.Model.Relate.EnvExit
 import GeosModel.Base.Env
 import Driver.Flatten
 /-! Driver for C01 (and the matrix part of C02): evaluates the reference DE-9IM on a grid pair and
@@ -128,7 +129,10 @@ def predSM (line : String) : String :=
           | some a, some b, some d => let s' := st.1.update a b d; (s', stChar s' :: st.2)
           | _, _, _ => st
         | _ => st) (s1, [stChar s1, stChar s0])
-      String.ofList ((stChar s.finish :: tr).reverse)
+      -- requirement flags of the kind (Model/Relate/EnvExit.lean), then the trace of the state machine
+      let flags := String.ofList [b01 (k.requireCovers true), b01 (k.requireCovers false), b01 (k.requireExteriorCheck true),
+                                  b01 (k.requireExteriorCheck false), b01 k.requireInteraction]
+      flags ++ " " ++ String.ofList ((stChar s.finish :: tr).reverse)
     | _, _, _, _, _ => "parse-error"
   | _ => "bad-line"
 
